@@ -264,10 +264,82 @@ def run(tier, seed, rng, known, replay):
         finally:
             env.rec.on_action = None
             shutil.rmtree(d, ignore_errors=True)
+    # bulk removals interrupted in the middle: the lock is taken by a foreign connection after the
+    # j-th batch has committed; Timeout must carry exactly the number of items already removed
+    for name in ('clear', 'evict', 'expire', 'cull', 'fanout-clear', 'fanout-cull'):
+        for j in (1, 2):
+            evaluations += 1
+            d = tempfile.mkdtemp(prefix='c14b-', dir=root)
+            try:
+                env.rec.enabled = False
+                env.clock.t = 1000
+                fan = name.startswith('fanout')
+                if fan:
+                    c = diskcache.FanoutCache(d, shards=1, timeout=0, cull_limit=0)
+                    target = os.path.join(d, '000')
+                else:
+                    c = diskcache.Cache(d, timeout=0, cull_limit=0)
+                    target = d
+                for i in range(250):
+                    c.set(i, i, tag='t', expire=5)
+                env.clock.t = 2000            # all of them have expired
+                env.rec.enabled = True
+                seen = {'commits': 0, 'con': None}
+
+                def hook(kind, detail, seen=seen, j=j, target=target, fan=fan):
+                    if kind == 'sql' and detail == 'COMMIT':
+                        seen['commits'] += 1
+                    elif kind == 'sql' and detail == 'BEGIN' and seen['commits'] == j and seen['con'] is None:
+                        seen['con'] = holder(target)
+                        seen['busy'] = 0
+                    elif kind == 'sql' and detail == 'BEGIN' and seen['con'] is not None and fan:
+                        # a sharded cache keeps trying: release after three busy attempts
+                        seen['busy'] += 1
+                        if seen['busy'] == 3:
+                            seen['con'].execute('ROLLBACK')
+                env.rec.on_action = hook
+                env.rec.reset()
+                try:
+                    meth = name.split('-')[-1]
+                    got = ('ok', (c.evict('t') if meth == 'evict' else getattr(c, meth)()))
+                except diskcache.Timeout as e:
+                    got = ('timeout', e.args)
+                finally:
+                    env.rec.on_action = None
+                    if seen['con'] is not None:
+                        try:
+                            seen['con'].execute('ROLLBACK')
+                        except sqlite3.OperationalError:
+                            pass
+                        seen['con'].close()
+                con = sqlite3.connect(os.path.join(target, 'cache.db'))
+                left = con.execute('SELECT COUNT(*) FROM Cache').fetchone()[0]
+                con.close()
+                removed = 250 - left
+                why = None
+                if fan:
+                    # a sharded cache never raises: it resumes and reports the total over all attempts
+                    if got != ('ok', 250) or removed != 250:
+                        why = 'expected all 250 items removed and 250 returned (the counts of the interrupted attempts included), got %r with %d removed' % (got, removed)
+                elif got != ('timeout', (removed,)):
+                    why = 'expected Timeout(%d) = the number of items already removed, got %r' % (removed, got)
+                if not fan and removed != 100 * j:
+                    why = (why + '; ' if why else '') + '%d items removed after %d committed batches of 100' % (removed, j)
+                if why and len(violations) < 3:
+                    violations.append({'replay': {'property': 'C14', 'call': name, 'lock_taken_after_batches': j, 'items': 250, 'acceptor': why},
+                                       'found_input': True,
+                                       'what': '%s() of 250 removable items, lock taken elsewhere after %d committed batch(es): %s' % (name, j, why)})
+                elif not why:
+                    traces_ok += 1
+                c.close()
+            finally:
+                env.rec.on_action = None
+                env.rec.enabled = True
+                shutil.rmtree(d, ignore_errors=True)
     return {
         'evaluations': evaluations, 'distinct_nontrivial': evaluations,
         'rule': 'every public data operation of Cache (x statistics / LRU settings that turn reads into writes), FanoutCache and DjangoCache with the '
-                'write lock of every shard held by a foreign connection; retry=True released after k in {1,3,7} busy attempts; exhaustive over the call list',
+                'write lock of every shard held by a foreign connection; retry=True released after k in {1,3,7} busy attempts; clear/evict/expire/cull of 250 removable items with the lock taken elsewhere after 1 or 2 committed batches (Cache: Timeout(n); FanoutCache resumes after 3 busy attempts and returns the total); exhaustive over the call list',
         'samples': samples, 'traces': traces_ok, 'exhaustive': True,
         'dist': {'timeout_traces_matching_model_shape': traces_ok},
         'violations': violations, 'known': [],
